@@ -28,8 +28,13 @@ def _linear_names(prior_spec):
     return names
 
 
-def expected_units(prior_spec):
-    vu = "km / s" if prior_spec["rv_unit"] == "km/s" else "m / s"
+def data_unit(dep, op):
+    return dep.program["config"]["datasets"][op.get("data", 0)]["rv_unit"]
+
+
+def expected_units(prior_spec, rv_unit=None):
+    rv_unit = rv_unit or prior_spec["rv_unit"]
+    vu = "km / s" if rv_unit == "km/s" else "m / s"
     un = {"P": "d", "e": "", "omega": "rad", "M0": "rad", "s": vu, "K": vu, "v0": vu}
     for i in range(prior_spec["n_offsets"]):
         un["dv0_%d" % (i + 1)] = vu
@@ -113,7 +118,7 @@ def tol_mode(dep, A):
     from . import common
 
     cfg = dep.program["config"]
-    internal = common.internal_units_lib(cfg["libraries"][A.op.get("lib", 0)], cfg["prior"])
+    internal = common.internal_units_lib(cfg["libraries"][A.op.get("lib", 0)], {"rv_unit": data_unit(dep, A.op)})
     return "exact" if (A.path == "in_memory" or internal) else "close"
 
 
@@ -131,12 +136,13 @@ def check_rows_unaltered(dep, A, out, expected_rows, prop, sigbase):
 
     v = []
     prior = dep.program["config"]["prior"]
-    un, vu = expected_units(prior)
+    rvu = data_unit(dep, A.op)
+    un, vu = expected_units(prior, rvu)
     for k in NONLIN:
         if k not in out["cols"]:
             v.append(Violation(prop, prop + ".columns", "%s:missing-column" % sigbase, "column %s missing; have %s" % (k, out["names"])))
             return v
-    units = {"P": u.day, "omega": u.rad, "M0": u.rad, "s": u.Unit(prior["rv_unit"])}
+    units = {"P": u.day, "omega": u.rad, "M0": u.rad, "s": u.Unit(rvu)}
     rows = np.repeat(np.asarray(expected_rows, dtype=int), A.nl)
     if out["n"] != len(rows):
         v.append(
@@ -148,7 +154,8 @@ def check_rows_unaltered(dep, A, out, expected_rows, prop, sigbase):
         got = out["cols"][k]["v"]
         if out["cols"][k]["unit"] != un[k]:
             v.append(Violation(prop, prop + ".units", "%s:unit-of-%s" % (sigbase, k), "unit %r expected %r" % (out["cols"][k]["unit"], un[k])))
-        if not oracles.close_ulp(got, exp[k], ulps=16):
+        f4 = A.lib.spec.get("dtype") == "f4"  # a float32 library converted to another unit is only float32-exact
+        if not (oracles.close_ulp(got, exp[k], rel=1e-6) if f4 else oracles.close_ulp(got, exp[k], ulps=16)):
             v.append(
                 Violation(
                     prop,
